@@ -453,8 +453,11 @@ def channel_send_paths(ctx):
                     new.append((guards, writes, e2, done))
                 elif isinstance(st, ast.If):
                     tst = _sub(st.test, env)
-                    new += block(st.body, [(guards + [(tst, True)], writes, env, False)])
-                    new += block(st.orelse, [(guards + [(tst, False)], writes, env, False)])
+                    pos = True
+                    while isinstance(tst, ast.UnaryOp) and isinstance(tst.op, ast.Not):
+                        tst, pos = tst.operand, not pos
+                    new += block(st.body, [(guards + [(tst, pos)], writes, env, False)])
+                    new += block(st.orelse, [(guards + [(tst, not pos)], writes, env, False)])
                 elif isinstance(st, ast.Return) and (st.value is None or isinstance(st.value, ast.Constant) and st.value.value is None):
                     new.append((guards, writes, env, True))
                 elif isinstance(st, ast.Expr) and isinstance(st.value, ast.Call) and \
